@@ -171,6 +171,9 @@ func TestC11(t *testing.T) {
 		// name shapes
 		base := GridCase{Dim: "name", Val: "ip", Server: peer.ServerConfig(), WantHRR: -1}
 		jobs = append(jobs, job{t: tg, gc: base, reneg: true, sni: "192.0.2.33"})
+		// names as callers write them: mixed case, trailing dot (both sides report what was sent)
+		jobs = append(jobs, job{t: tg, gc: GridCase{Dim: "name", Val: "mixed-case", Server: peer.ServerConfig(), WantHRR: -1}, reneg: ti%2 == 0, sni: "Mixed.Example.TEST"})
+		jobs = append(jobs, job{t: tg, gc: GridCase{Dim: "name", Val: "trailing-dot", Server: peer.ServerConfig(), WantHRR: -1}, reneg: ti%2 == 1, sni: "www.example.test."})
 		if tg.ID.Client != tls.HelloGolang.Client || tg.Spec != nil {
 			jobs = append(jobs, job{t: tg, gc: GridCase{Dim: "name", Val: "removed-sni", Server: peer.ServerConfig(), WantHRR: -1}, reneg: true, sni: "example.test", noSNI: true})
 		}
